@@ -85,7 +85,9 @@ def run(chk):
              "", " >= 1.0 , < 2 ", "||", "~=1.0.POST1", ">=1.0a1,<1.0rc1", "!=1.5", "===1.5",
              # contradictory / redundant clause sequences followed by further clauses (the fold must stay total)
              ">=2,<1,!=1.5", "==1.0,==2.0,!=1.0.*", "~=2.1,<2,!=2.0.dev1", "<1,>=2,~=3.1", ">=1,<=1,!=1", "!=1.*,==1.5,>=0", "==1.0,!=1.0,<3,>2",
-             ">=1.0", "==1!3.*", "<1||>=2.0.dev1", ">=1,<2||>=2,<3||==5.*", "!=1.5,!=1.6,!=1.7.*,>1,<2"]
+             ">=1.0", "==1!3.*", "<1||>=2.0.dev1", ">=1,<2||>=2,<3||==5.*", "!=1.5,!=1.6,!=1.7.*,>1,<2",
+             # optional leading v / V of PEP 440 versions, also with wildcards, ~=, epochs, inside sets and alternatives
+             "==v1.*", "!=V2.0.*", ">=v1.0", "~=v1.4.2", "==V1!2.*", "<v2,>=V1.0a1", "==v1.0||!=v2.*", "~=V1.0.post1"]
     invalid = ["abc", ">>1", "=1.0", "~=1", "==1.*.2", ">=1.0 <2", "1.0", "==1.0.*.post1", "~=1.*", ">=1.*", "<1.0.*", "==", ">=1.0||>>2",
                "!1.0", "==1..0", ">=1.0,abc", "~=1.0a", "== 1.0 ; python_version", ">=v", "<empty>||abc",
                # near misses of texts parsed just before (a history-keyed cache must not accept them), blanks in forbidden positions
